@@ -312,8 +312,42 @@ func run(c *rig.Ctx) {
 			}
 			lcdOn := before[0xff40]&0x80 != 0
 			soundOn := before[0xff26]&0x80 != 0
+			// the saved image of cartridge RAM (what the host writes to the battery file) is part
+			// of what a store may or may not change
+			var dump0 []byte
+			dumped := addr < 0xc000 || k%16 == 0
+			if dumped {
+				dump0 = m.Mem.DumpRAM()
+			}
 			m.Mem.Write(addr, val)
 			sweep(m, &after)
+			if dumped {
+				dump1 := m.Mem.DumpRAM()
+				ndiff, at := 0, -1
+				for q := range dump1 {
+					if q < len(dump0) && dump0[q] != dump1[q] {
+						ndiff++
+						at = q
+					}
+				}
+				c.Count("saved_ram_images_compared", 1)
+				bad := ""
+				switch {
+				case len(dump0) != len(dump1):
+					bad = fmt.Sprintf("the saved cartridge RAM image changed its length (%d -> %d bytes)", len(dump0), len(dump1))
+				case ndiff > 0 && !(addr >= 0xa000 && addr < 0xc000):
+					bad = fmt.Sprintf("%d bytes of the saved cartridge RAM image changed (e.g. offset %04X %02X -> %02X)", ndiff, at, dump0[at], dump1[at])
+				case ndiff > 1:
+					bad = fmt.Sprintf("%d bytes of the saved cartridge RAM image changed", ndiff)
+				case ndiff == 1 && (at&0x1ff != int(addr)&0x1ff || after[addr]&0x0f != dump1[at]&0x0f):
+					bad = fmt.Sprintf("offset %04X of the saved cartridge RAM image changed %02X -> %02X, yet [%04X] now reads %02X: the store went to a byte that is not the one mapped at the address", at, dump0[at], dump1[at], addr, after[addr])
+				}
+				if bad != "" {
+					c.Violate("write-"+className(addr)+"-changes-saved-ram",
+						fmt.Sprintf("cart %02X: writing %02X to %04X: %s", cart, val, addr, bad),
+						map[string]any{"cart": cart, "addr": fmt.Sprintf("%04X", addr), "value": val, "write_index": k, "program": p.Describe()})
+				}
+			}
 			allowed := effect(addr, uint8(cart))
 			if addr >= 0xff30 && addr <= 0xff3f && before[0xff26]&0x04 == 0 {
 				// channel 3 is off: wave RAM is plain memory, the write reaches its own byte only
